@@ -1,6 +1,6 @@
 // gencheck — cross-check of the go2v translation (T): the generated Gallina definitions (extracted, oracle/gen) are run
 // against the real Go functions they were translated from, on boundary-biased and random arguments.
-// usage: gencheck -oracle <oracle/gen/oracle.exe> -seed N -names GasLimit,Sequence,Epoch,PoolSync
+// usage: gencheck -oracle <oracle/gen/oracle.exe> -seed N -names GasLimit,Sequence,Epoch,PoolSync,StakerTime
 // prints "GENCHECK-MISMATCH <name> <input> impl=<..> gen=<..>" lines and exits 1 on any disagreement.
 package main
 
@@ -8,10 +8,13 @@ import (
 	"flag"
 	"fmt"
 	"os"
+	"sort"
 	"strings"
 
 	"github.com/vechain/thor/v2/bft"
 	"github.com/vechain/thor/v2/block"
+	"github.com/vechain/thor/v2/builtin/staker/delegation"
+	"github.com/vechain/thor/v2/builtin/staker/validation"
 	"github.com/vechain/thor/v2/logdb"
 	"github.com/vechain/thor/v2/thor"
 	"github.com/vechain/thor/v2/txpool"
@@ -33,6 +36,192 @@ func zhex(x int64) string {
 	return fmt.Sprintf("%x", x)
 }
 
+// ---- StakerTime: boundary-biased field tuples for validation.Validation / delegation.Delegation
+
+type stakerCase struct {
+	cd  uint32 // thor.CooldownPeriod()
+	v   validation.Validation
+	d   delegation.Delegation
+	cur uint32
+}
+
+func p32(x uint32) *uint32 { return &x }
+
+func optHex(p *uint32) string {
+	if p == nil {
+		return "nil"
+	}
+	return fmt.Sprintf("%x", *p)
+}
+
+func resU32(x uint32, err error) string {
+	if err != nil {
+		return "none"
+	}
+	return fmt.Sprintf("%x", x)
+}
+
+func resU64(x uint64, err error) string {
+	if err != nil {
+		return "none"
+	}
+	return fmt.Sprintf("%x", x)
+}
+
+func resBool(b bool, err error) string {
+	if err != nil {
+		return "none"
+	}
+	return b2s(b)
+}
+
+// near picks a value around x (x-2 .. x+2, wrapping) or x itself.
+func near(r *hx.Rand, x uint32) uint32 { return x + uint32(r.Intn(5)) - 2 }
+
+func genStakerCase(r *hx.Rand) stakerCase {
+	var c stakerCase
+	c.cd = []uint32{1, 2, 180, 8640, 8640, 60480, 1 << 31, ^uint32(0)}[r.Intn(8)]
+	// period: 0 (error branch / panic of IsPeriodEnd), 1, the three configured lengths, large, random
+	switch r.Intn(8) {
+	case 0:
+		c.v.Period = []uint32{0, 1, 1, 2}[r.Intn(4)]
+	case 1:
+		c.v.Period = ^uint32(0) - uint32(r.Intn(3))
+	case 2:
+		c.v.Period = uint32(r.Uint64())
+	case 3:
+		c.v.Period = uint32(1 + r.Intn(50))
+	default:
+		c.v.Period = []uint32{180, 8640, 60480, 129600, 259200}[r.Intn(5)]
+	}
+	// current block: small, typical, near 2^32
+	switch r.Intn(6) {
+	case 0:
+		c.cur = uint32(r.Intn(10))
+	case 1:
+		c.cur = ^uint32(0) - uint32(r.Intn(4))
+	case 2:
+		c.cur = uint32(r.Uint64())
+	default:
+		c.cur = uint32(r.Intn(30_000_000))
+	}
+	// start block: <= current (mostly, often a whole number of periods back), > current, 0
+	switch r.Intn(8) {
+	case 0:
+		c.v.StartBlock = 0
+	case 1:
+		c.v.StartBlock = c.cur + uint32(1+r.Intn(3)) // wraps at the top: still a valid uint32
+	case 2:
+		c.v.StartBlock = uint32(r.Uint64())
+	case 3, 4:
+		k := uint32(r.Intn(6))
+		if uint64(k)*uint64(c.v.Period) <= uint64(c.cur) {
+			c.v.StartBlock = near(r, c.cur-k*c.v.Period)
+		}
+	default:
+		if c.cur > 0 {
+			c.v.StartBlock = uint32(r.Intn(int(c.cur%(1<<31)) + 1))
+		}
+	}
+	c.v.Status = validation.Status([]uint8{0, 1, 2, 2, 2, 2, 3, 3, uint8(4 + r.Intn(252))}[r.Intn(9)])
+	switch r.Intn(6) {
+	case 0:
+		c.v.CompletedPeriods = 1
+	case 1:
+		c.v.CompletedPeriods = uint32(1 + r.Intn(40))
+	case 2:
+		c.v.CompletedPeriods = ^uint32(0) - uint32(r.Intn(3))
+	default:
+		c.v.CompletedPeriods = 0
+	}
+	// exit block: nil / around current - cooldown / near the top (deadline wraps)
+	switch r.Intn(6) {
+	case 0, 1:
+		c.v.ExitBlock = nil
+	case 2:
+		c.v.ExitBlock = p32(near(r, c.cur-c.cd))
+	case 3:
+		c.v.ExitBlock = p32(^uint32(0) - uint32(r.Intn(int(c.cd%1000)+3)))
+	case 4:
+		c.v.ExitBlock = p32(uint32(r.Uint64()))
+	default:
+		c.v.ExitBlock = p32(uint32(r.Intn(int(c.cur%(1<<31)) + 1)))
+	}
+	if r.Chance(1, 3) {
+		c.v.OfflineBlock = p32(uint32(r.Uint64()))
+	}
+	vet := func() uint64 {
+		switch r.Intn(8) {
+		case 0:
+			return 0
+		case 1:
+			return ^uint64(0) - r.Uint64()%3
+		case 2:
+			return r.Uint64()
+		case 3:
+			return 1<<63 + r.Uint64()%5 - 2
+		default:
+			return 25_000_000 + r.Uint64()%575_000_001
+		}
+	}
+	c.v.LockedVET, c.v.PendingUnlockVET, c.v.QueuedVET, c.v.CooldownVET, c.v.WithdrawableVET = vet(), vet(), vet(), vet(), vet()
+	if r.Chance(1, 3) {
+		c.v.PendingUnlockVET = c.v.LockedVET + c.v.QueuedVET + uint64(r.Intn(3)) - 1
+	}
+	switch r.Intn(3) {
+	case 0:
+		c.v.Weight = c.v.LockedVET
+	case 1:
+		c.v.Weight = 2*c.v.LockedVET + r.Uint64()%1_000_000
+	default:
+		c.v.Weight = vet()
+	}
+	// delegation: iterations around the validation's current iteration
+	it, err := c.v.CurrentIteration(c.cur)
+	if err != nil {
+		it = uint32(r.Intn(5))
+	}
+	switch r.Intn(4) {
+	case 0:
+		c.d.Stake = 0
+	default:
+		c.d.Stake = 1 + r.Uint64()%600_000_000
+	}
+	c.d.Multiplier = uint8(r.Intn(256))
+	switch r.Intn(5) {
+	case 0:
+		c.d.FirstIteration = uint32(r.Uint64())
+	case 1:
+		c.d.FirstIteration = uint32(r.Intn(4))
+	default:
+		c.d.FirstIteration = near(r, it)
+	}
+	switch r.Intn(6) {
+	case 0, 1:
+		c.d.LastIteration = nil
+	case 2:
+		c.d.LastIteration = p32(uint32(r.Uint64()))
+	case 3:
+		c.d.LastIteration = p32(c.d.FirstIteration + uint32(r.Intn(3)))
+	default:
+		c.d.LastIteration = p32(near(r, it))
+	}
+	return c
+}
+
+func (c *stakerCase) String() string {
+	return fmt.Sprintf("cooldown=%d Status=%d Period=%d CompletedPeriods=%d StartBlock=%d ExitBlock=%s Withdrawable=%d Cooldown=%d Queued=%d | Stake=%d FirstIteration=%d LastIteration=%s | currentBlock=%d",
+		c.cd, c.v.Status, c.v.Period, c.v.CompletedPeriods, c.v.StartBlock, optDec(c.v.ExitBlock), c.v.WithdrawableVET, c.v.CooldownVET, c.v.QueuedVET,
+		c.d.Stake, c.d.FirstIteration, optDec(c.d.LastIteration), c.cur)
+}
+
+func optDec(p *uint32) string {
+	if p == nil {
+		return "nil"
+	}
+	return fmt.Sprintf("%d", *p)
+}
+
 func main() {
 	oracle := flag.String("oracle", "", "")
 	seed := flag.Uint64("seed", 1, "")
@@ -41,6 +230,7 @@ func main() {
 	flag.Parse()
 	r := hx.NewRand(*seed)
 	var lines, want []string
+	dist := map[string]int{}
 	add := func(l, w string) { lines = append(lines, l); want = append(want, w) }
 	u64 := func() uint64 {
 		switch r.Intn(8) {
@@ -123,6 +313,50 @@ func main() {
 				}
 				add(fmt.Sprintf("epoch %x %x", L, num),
 					fmt.Sprintf("%x %s %x", bft.VerifGetCheckPoint(num), b2s(bft.VerifIsCheckPoint(num)), bft.VerifGetStorePoint(num)))
+			}
+		case "StakerTime":
+			rs := hx.NewRand(*seed).Fork(0x57a4e7) // own well-mixed stream (NewRand(seed+1) is NewRand(seed) shifted by one draw)
+			for i := 0; i < *n; i++ {
+				c := genStakerCase(rs)
+				thor.SetConfig(thor.Config{CooldownPeriod: c.cd})
+				v, d := &c.v, &c.d
+				dist["cases"]++
+				if it, err := v.CurrentIteration(c.cur); err != nil {
+					dist["iteration-error"]++
+				} else if v.Status == validation.StatusActive && v.CompletedPeriods == 0 {
+					dist["iteration-computed"]++
+					if it == 0 {
+						dist["iteration-wrapped"]++
+					}
+					if v.IsPeriodEnd(c.cur) {
+						dist["period-end"]++
+					}
+				}
+				if v.ExitBlock != nil {
+					dist["exit-set"]++
+					if uint64(*v.ExitBlock)+uint64(thor.CooldownPeriod()) >= 1<<32 {
+						dist["cooldown-deadline-wraps"]++
+					}
+					if v.CooldownEnded(c.cur) {
+						dist["cooldown-ended"]++
+					}
+				}
+				if l, err := d.IsLocked(v, c.cur); err == nil && l {
+					dist["locked"]++
+				}
+				if e, err := d.Ended(v, c.cur); err == nil && e {
+					dist["ended"]++
+				}
+				if v.Period != 0 { // Go panics on Period = 0 (divisor obligation of the translation)
+					add(fmt.Sprintf("staker.periodend %x %x %x", v.Period, v.StartBlock, c.cur), b2s(v.IsPeriodEnd(c.cur)))
+				}
+				line := fmt.Sprintf("staker %x %x %x %x %x %s %s %x %x %x %x %x %x %x %s %x %x", thor.CooldownPeriod(), v.Status, v.Period, v.CompletedPeriods,
+					v.StartBlock, optHex(v.ExitBlock), optHex(v.OfflineBlock), v.LockedVET, v.PendingUnlockVET, v.QueuedVET, v.CooldownVET, v.WithdrawableVET,
+					v.Weight, d.Stake, optHex(d.LastIteration), d.FirstIteration, c.cur)
+				add(line, strings.Join([]string{
+					b2s(v.IsOnline()), resU64(v.NextPeriodTVL()), resU32(v.CurrentIteration(c.cur)), resU32(v.CompletedIterations(c.cur)),
+					b2s(v.CooldownEnded(c.cur)), fmt.Sprintf("%x", v.CalculateWithdrawableVET(c.cur)), fmt.Sprintf("%x", v.VerifMultiplier()),
+					resBool(d.Started(v, c.cur)), resBool(d.Ended(v, c.cur)), resBool(d.IsLocked(v, c.cur))}, " "))
 			}
 		case "PoolSync":
 			for i := 0; i < *n; i++ {
@@ -217,6 +451,146 @@ func main() {
 					pf("checkpoint_spec L=%d num=%d checkpoint=%d storepoint=%d", L, num, cp, sp)
 				}
 			}
+		case "StakerTime": // the lemmas of GenProofs/StakerTimeProofs.v on the real methods
+			rr := hx.NewRand(*seed).Fork(81)
+			for i := 0; i < *n; i++ {
+				c := genStakerCase(rr)
+				thor.SetConfig(thor.Config{CooldownPeriod: c.cd})
+				cd := uint64(thor.CooldownPeriod())
+				v, d, cur := &c.v, &c.d, c.cur
+				it, itErr := v.CurrentIteration(cur)
+				// current_iteration_not_running
+				switch {
+				case v.Status == validation.StatusUnknown || v.Status == validation.StatusQueued:
+					if itErr != nil || it != 0 {
+						pf("current_iteration_not_running %s: CurrentIteration=%s, want 0", c.String(), resU32(it, itErr))
+					}
+				case v.Status == validation.StatusExit || v.CompletedPeriods > 0:
+					if itErr != nil || it != v.CompletedPeriods {
+						pf("current_iteration_not_running %s: CurrentIteration=%s, want CompletedPeriods", c.String(), resU32(it, itErr))
+					}
+				case cur < v.StartBlock || v.Period == 0: // current_iteration_active_errors
+					if itErr == nil {
+						pf("current_iteration_active_errors %s: CurrentIteration=%d, want an error", c.String(), it)
+					}
+				default: // current_iteration_active_spec: (currentBlock - StartBlock) / Period + 1 whenever that fits 32 bits
+					want := uint64(cur-v.StartBlock)/uint64(v.Period) + 1
+					if want < 1<<32 && (itErr != nil || uint64(it) != want) {
+						pf("current_iteration_active_spec %s: CurrentIteration=%s, want (currentBlock-StartBlock)/Period+1 = %d", c.String(), resU32(it, itErr), want)
+					}
+					// period_end_iff_iteration_advances + is_period_end_spec
+					end := v.IsPeriodEnd(cur)
+					if end != (uint64(cur-v.StartBlock)%uint64(v.Period) == 0) {
+						pf("is_period_end_spec %s: IsPeriodEnd=%v", c.String(), end)
+					}
+					if cur > v.StartBlock && want < 1<<32 {
+						prev, perr := v.CurrentIteration(cur - 1)
+						if perr != nil || itErr != nil || end != (it == prev+1) || (!end && it != prev) {
+							pf("period_end_iff_iteration_advances %s: IsPeriodEnd=%v CurrentIteration(current-1)=%s CurrentIteration(current)=%s",
+								c.String(), end, resU32(prev, perr), resU32(it, itErr))
+						}
+					}
+				}
+				// completed_iterations_spec
+				ci, ciErr := v.CompletedIterations(cur)
+				switch {
+				case v.Status == validation.StatusUnknown || v.Status == validation.StatusQueued:
+					if ciErr != nil || ci != 0 {
+						pf("completed_iterations_spec %s: CompletedIterations=%s, want 0", c.String(), resU32(ci, ciErr))
+					}
+				case v.Status == validation.StatusExit:
+					if ciErr != nil || ci != v.CompletedPeriods {
+						pf("completed_iterations_spec %s: CompletedIterations=%s, want CompletedPeriods", c.String(), resU32(ci, ciErr))
+					}
+				case v.CompletedPeriods > 0:
+					if ciErr != nil || ci != v.CompletedPeriods-1 {
+						pf("completed_iterations_spec %s: CompletedIterations=%s, want CompletedPeriods-1", c.String(), resU32(ci, ciErr))
+					}
+				case cur >= v.StartBlock && v.Period != 0:
+					if ciErr != nil || ci != (cur-v.StartBlock)/v.Period {
+						pf("completed_iterations_spec %s: CompletedIterations=%s, want (currentBlock-StartBlock)/Period", c.String(), resU32(ci, ciErr))
+					}
+				}
+				// current_iteration_monotone / started_monotone / ended_monotone (later block below 2^32 - 1)
+				later := cur + uint32(rr.Intn(3)) + uint32(rr.Intn(2))*v.Period
+				if later >= cur && later < ^uint32(0) && itErr == nil {
+					it2, err2 := v.CurrentIteration(later)
+					if err2 != nil || it2 < it {
+						pf("current_iteration_monotone %s: CurrentIteration=%d but at block %d: %s", c.String(), it, later, resU32(it2, err2))
+					}
+					if s1, e1 := d.Started(v, cur); e1 == nil && s1 {
+						if s2, e2 := d.Started(v, later); e2 != nil || !s2 {
+							pf("started_monotone %s: Started=true but at block %d: %s", c.String(), later, resBool(s2, e2))
+						}
+					}
+					if s1, e1 := d.Ended(v, cur); e1 == nil && s1 {
+						if s2, e2 := d.Ended(v, later); e2 != nil || !s2 {
+							pf("ended_monotone %s: Ended=true but at block %d: %s", c.String(), later, resBool(s2, e2))
+						}
+					}
+				}
+				// cooldown_ended_spec / cooldown_ended_monotone / withdrawable_spec
+				ce := v.CooldownEnded(cur)
+				if v.ExitBlock == nil && ce {
+					pf("cooldown_ended_spec %s: CooldownEnded=true without an exit block", c.String())
+				}
+				if v.ExitBlock != nil && uint64(*v.ExitBlock)+cd < 1<<32 && ce != (uint64(*v.ExitBlock)+cd <= uint64(cur)) {
+					pf("cooldown_ended_spec %s: CooldownEnded=%v", c.String(), ce)
+				}
+				if ce && later >= cur && !v.CooldownEnded(later) {
+					pf("cooldown_ended_monotone %s: CooldownEnded=true but false at block %d", c.String(), later)
+				}
+				w, cdv, q := v.WithdrawableVET, v.CooldownVET, v.QueuedVET
+				if w < 1<<62 && cdv < 1<<62 && q < 1<<62 {
+					want := w + q
+					if ce {
+						want += cdv
+					}
+					if got := v.CalculateWithdrawableVET(cur); got != want {
+						pf("withdrawable_spec %s: CalculateWithdrawableVET=%d, want %d", c.String(), got, want)
+					}
+				}
+				// multiplier_spec, is_online_spec, next_period_tvl_spec
+				if m := v.VerifMultiplier(); (m == validation.Multiplier) != (v.Weight == v.LockedVET) || (m != validation.Multiplier && m != validation.MultiplierWithDelegations) {
+					pf("multiplier_spec Weight=%d LockedVET=%d: multiplier=%d", v.Weight, v.LockedVET, m)
+				}
+				if v.IsOnline() != (v.OfflineBlock == nil) {
+					pf("is_online_spec %s", c.String())
+				}
+				if v.LockedVET < 1<<62 && v.QueuedVET < 1<<62 {
+					tvl, err := v.NextPeriodTVL()
+					if (err != nil) != (v.LockedVET+v.QueuedVET < v.PendingUnlockVET) || (err == nil && tvl != v.LockedVET+v.QueuedVET-v.PendingUnlockVET) {
+						pf("next_period_tvl_spec LockedVET=%d QueuedVET=%d PendingUnlockVET=%d: NextPeriodTVL=%s", v.LockedVET, v.QueuedVET, v.PendingUnlockVET, resU64(tvl, err))
+					}
+				}
+				// started_spec / ended_spec / ended_implies_started / is_locked_iff
+				st, stErr := d.Started(v, cur)
+				en, enErr := d.Ended(v, cur)
+				lk, lkErr := d.IsLocked(v, cur)
+				if v.Status == validation.StatusQueued || v.Status == validation.StatusUnknown {
+					if stErr != nil || st {
+						pf("started_spec %s: Started=%s on a validation that is not active", c.String(), resBool(st, stErr))
+					}
+				} else if (stErr != nil) != (itErr != nil) || (stErr == nil && st != (it >= d.FirstIteration)) {
+					pf("started_spec %s: Started=%s CurrentIteration=%s", c.String(), resBool(st, stErr), resU32(it, itErr))
+				}
+				if v.Status != validation.StatusQueued && itErr == nil {
+					want := (v.Status == validation.StatusExit && it >= d.FirstIteration) || (d.LastIteration != nil && *d.LastIteration < it)
+					if enErr != nil || en != want {
+						pf("ended_spec %s: Ended=%s CurrentIteration=%d", c.String(), resBool(en, enErr), it)
+					}
+				}
+				if enErr == nil && en && (d.LastIteration == nil || d.FirstIteration <= *d.LastIteration) && (stErr != nil || !st) {
+					pf("ended_implies_started %s: Ended=true Started=%s", c.String(), resBool(st, stErr))
+				}
+				if d.Stake == 0 {
+					if lkErr != nil || lk {
+						pf("is_locked_spec %s: IsLocked=%s with no stake", c.String(), resBool(lk, lkErr))
+					}
+				} else if (lkErr != nil) != (stErr != nil || enErr != nil) || (lkErr == nil && lk != (st && !en)) {
+					pf("is_locked_iff %s: IsLocked=%s Started=%s Ended=%s", c.String(), resBool(lk, lkErr), resBool(st, stErr), resBool(en, enErr))
+				}
+			}
 		case "PoolSync":
 			rr := hx.NewRand(*seed + 80)
 			for i := 0; i < *n; i++ {
@@ -247,6 +621,18 @@ func main() {
 			}
 			bad++
 		}
+	}
+	if len(dist) > 0 {
+		var ks []string
+		for k := range dist {
+			ks = append(ks, k)
+		}
+		sort.Strings(ks)
+		var parts []string
+		for _, k := range ks {
+			parts = append(parts, fmt.Sprintf("%s=%d", k, dist[k]))
+		}
+		fmt.Println("gencheck: StakerTime input distribution:", strings.Join(parts, " "))
 	}
 	fmt.Printf("gencheck: %d evaluations, %d mismatches, %d property failures on the implementation\n", len(lines), bad, propFails)
 	if bad > 0 || propFails > 0 {
